@@ -86,6 +86,9 @@ pub enum Call {
     Filter(u32, bool),
     #[serde(rename = "o")]
     Sort(Vec<u32>),
+    /// sort_candidates returns (only logged when it looks up dependencies through the cache)
+    #[serde(rename = "oe")]
+    SortEnd(u32),
     /// should_cancel_with_value poll number k; true if it returned Some
     #[serde(rename = "p")]
     Poll(u32, bool),
@@ -232,6 +235,7 @@ impl DependencyProvider for Prov {
             for x in s.iter() {
                 let _ = c.get_or_cache_dependencies(*x).await;
             }
+            self.push(Call::SortEnd(s.first().map(|s| s.0).unwrap_or(u32::MAX)));
         }
         if self.gate_all {
             self.wait(format!("o{}", s.first().map(|s| s.0).unwrap_or(9999))).await;
